@@ -70,6 +70,9 @@ def finish_with_selftest(chk: Checker, t0, seed, a, extra) -> int:
         extra["selftest"] = st["summary"]
         extra["selftest_cases"] = st["cases"]
     rc = finish(chk, t0, seed, extra)
+    if st is not None:
+        for f in st.get("stale", []):
+            print(f"SELFTEST-STALE (tree differs from the one the corpus was validated on) {f}")
     if st is not None and st["failed"]:
         for f in st["failed"]:
             print(f"SELFTEST-FAIL {f}")
